@@ -436,3 +436,97 @@ def run_families(methods: Optional[List[str]], families: List[str], prefix: str,
     res.extra["gx_cases"] = len(cases)
     res.extra["gx_time_s"] = round(sum(r["time"] for r in recs), 1)
     return res
+
+
+# --------------------------------------------------------------------------------------
+# may-mode obligations (arbitrary token sequences)
+# --------------------------------------------------------------------------------------
+MAY_BUDGET = {"quick": 4000, "thorough": 60000}
+
+
+def run_may_case(idx) -> dict:
+    gx = get_gx()
+    method, nt_name, fac = method_cases(gx)[idx]
+    out = dict(method=method, nt=nt_name, runs=0, counts={}, findings=[], notes=[], time=0.0)
+    if method not in gx.parse_methods:
+        out["missing"] = True
+        return out
+    t0 = time.time()
+    args, kwargs = fac(gx, gx.g.nts[nt_name].prods[0]) if fac else ((), {})
+    runs, counts, findings, notes = GXM.explore_may(gx, method, args, kwargs, budget=MAY_BUDGET[_TIER],
+                                                    maxlen=9 if _TIER == "quick" else 11)
+    out.update(runs=runs, counts=dict(counts), findings=findings[:50], notes=notes, time=time.time() - t0)
+    return out
+
+
+MAY_FAMILIES = {"bracket": ("unbalanced",), "rte": ("exception",), "errloc": ("bad-error-location",)}
+
+
+def may_replay(script, kind) -> str:
+    gx = get_gx()
+    toks = [gx.spelling(t, i) for i, t in enumerate(script) if t is not None]
+    tds = "".join(f"typedef int {gx.spelling('TYPEID', i)};\n" for i, t in enumerate(script) if t == "TYPEID")
+    body = " ".join(toks)
+    return ("from pycparser import c_parser\n"
+            f"FRAG = {body!r}\nTDS = {tds!r}\nbad = []\n"
+            "for pre, post in (('', ''), ('', ';'), ('void f(void) { ', ' }'), ('void f(void) { ', '; }'), ('int x = ', ';'), ('struct S { ', ' };'),"
+            " ('void f(void) { x = ', '; }'), ('void f(', ');'), ('int a[', '];')):\n"
+            "    for cut in (False, True):\n"
+            "        src = TDS + pre + FRAG + ('' if cut else post)\n"
+            "        try:\n            c_parser.CParser().parse(src, 'w.c')\n"
+            "            st = []\n            okb = True\n"
+            "            for ch in src:\n"
+            "                if ch in '([{': st.append(ch)\n"
+            "                elif ch in ')]}':\n"
+            "                    if not st or '([{'.index(st[-1]) != ')]}'.index(ch): okb = False; break\n"
+            "                    st.pop()\n"
+            "            if st or not okb: bad.append((src, 'ACCEPTED although its brackets do not balance'))\n"
+            "        except c_parser.ParseError as e:\n"
+            "            if not (str(e).startswith('w.c:') ): bad.append((src, 'ParseError without location: ' + str(e)))\n"
+            "        except RecursionError:\n            pass\n"
+            "        except Exception as e:\n            bad.append((src, type(e).__name__ + ': ' + str(e)))\n"
+            "for b in bad[:5]: print(b)\n"
+            "print('REPRODUCED' if bad else 'NOT-REPRODUCED')\n")
+
+
+def run_may(methods, families, prefix, tier="quick", procs=16) -> core.Result:
+    global _TIER
+    _TIER = tier
+    gx = get_gx()
+    allc = method_cases(gx)
+    cases = [i for i, c in enumerate(allc) if methods is None or c[0] in methods]
+    ctx = mp.get_context("fork")
+    with ctx.Pool(min(procs, len(cases))) as pool:
+        recs = pool.map(run_may_case, cases, chunksize=1)
+    res = core.Result()
+    src = core.Source.get("pycparser/c_parser.py")
+    total = 0
+    for r in recs:
+        q = f"CParser.{r['method']}"
+        if r.get("missing") or not src.has(q):
+            res.obs.append(core.Ob(f"{prefix}/bind/{r['method']}", core.UNDECIDED, "GX", 0.0, "method not found", functions=[q]))
+            continue
+        if all(f.qualname != q for f in res.functions):
+            res.functions.append(src.func(q))
+        total += r["runs"]
+        bounded = bool(r["notes"]) or r["counts"].get("cut-length", 0) > 0
+        for fam in families:
+            kinds = MAY_FAMILIES[fam]
+            bad = [f for f in r["findings"] if f[0] in kinds]
+            name = f"{prefix}/may-{fam}/{r['method']}/{r['nt']}"
+            if bad:
+                kind, detail, text, script = bad[0]
+                res.obs.append(core.Ob(name, core.REFUTED, "GX", 0.0, f"{detail}\ntoken sequence: {text}\n({len(bad)} such runs of {r['runs']})",
+                                       replay=may_replay(script, kind), functions=[q], sample=text))
+            else:
+                c = r["counts"]
+                res.obs.append(core.Ob(name, core.DISCHARGED, "GX", 0.0,
+                                       (("BOUNDED (budget/length cut): " if bounded else "") +
+                                        f"{r['runs']} token sequences: {c.get('ok', 0)} normal returns, {c.get('parse-error', 0)} ParseErrors"),
+                                       functions=[q], sample=f"{r['runs']} arbitrary token sequences of {r['method']}", bounded=bounded))
+    res.extra["gx_may_runs"] = total
+    res.trusted_base.append("GX may-mode: a callee returns normally only on a token of its nonterminal's FIRST set, consuming one bracket-balanced "
+                            "construct (its own may-obligation: induction over the call tree)")
+    res.assumptions.append("may-mode explores token sequences breadth-first up to 9 (quick) / 11 (thorough) tokens taken by the method itself; "
+                           "methods whose exploration is cut are reported as bounded")
+    return res
